@@ -285,16 +285,23 @@ func run(c *lib.Ctx, cs caseT) {
 	compare()
 	// model tie: lookups on the PrivilegeSet of one account before / after, role edges admin flags
 	var edgeTerms []string
-	collect := func(m *mysql_db.MySQLDb) map[string]bool {
-		out := map[string]bool{}
+	collect := func(m *mysql_db.MySQLDb) []string {
+		var out []string
 		rd := m.Reader()
 		defer rd.Close()
-		rd.VisitRoleEdges(func(e *mysql_db.RoleEdge) { out[e.FromUser+">"+e.ToUser] = e.WithAdminOption })
+		rd.VisitRoleEdges(func(e *mysql_db.RoleEdge) {
+			out = append(out, fmt.Sprintf("%s@%s>%s@%s|%v", e.FromUser, e.FromHost, e.ToUser, e.ToHost, e.WithAdminOption))
+		})
+		sortStrings(out)
 		return out
 	}
 	ea, eb := collect(ma), collect(mb)
-	for _, k := range lib.SortedKeys(ea) {
-		edgeTerms = append(edgeTerms, lib.CoqTuple(lib.CoqBool(ea[k]), lib.CoqBool(eb[k])))
+	for i := 0; i < len(ea) || i < len(eb); i++ {
+		ba, bb := i < len(ea) && strings.HasSuffix(ea[i], "|true"), i < len(eb) && strings.HasSuffix(eb[i], "|true")
+		if i >= len(ea) || i >= len(eb) {
+			ba, bb = true, false // an edge exists on one side only: never agrees with the model
+		}
+		edgeTerms = append(edgeTerms, lib.CoqTuple(lib.CoqBool(ba), lib.CoqBool(bb)))
 	}
 	getPS := func(m *mysql_db.MySQLDb, n string) (mysql_db.PrivilegeSet, bool) {
 		rd := m.Reader()
@@ -474,7 +481,7 @@ func main() {
 		}
 		cu := func(u string) stmtT { return stmtT{Kind: "create-user", User: u} }
 		corpus := []caseT{
-			// known findings
+			// known findings (the WITH ADMIN OPTION one was fixed by e81e089bb; its input stays)
 			{History: []stmtT{cu("u1"), {Kind: "grant", User: "u1", DB: "Db2", Privs: []string{"SELECT"}}}},
 			{History: []stmtT{cu("u1"), {Kind: "grant", User: "u1", DB: "db", Tbl: "Ss", Privs: []string{"SELECT"}}}},
 			{History: []stmtT{cu("u1"), {Kind: "create-role", User: "r1"}, {Kind: "grant-role", User: "u1", Role: "r1", Admin: true}}},
